@@ -230,9 +230,13 @@ static std::string run_hist(const Cfg &cfg, const std::vector<Op> &h, std::strin
     w.check_tokens();
     for (int i = 0; i < NC && w.viol.empty(); i++) if (w.pend[i] >= 0 && !w.ss[w.pend[i]].s_user_closed) w.fail("client-never-connected");      // (an attempt that died with the listening socket is retried after a delay)
     if (w.viol.empty() && w.srv_running && !w.backlog.empty()) w.fail("server-never-accepted-a-pending-connection (" + std::to_string(w.backlog.size()) + " still waiting)");
+    // A session whose client already got its disconnected callback was judged there (cli_disconnected: nothing due at that moment, with the
+    // binding that was in force THEN); c_due() uses the client's CURRENT binding, which a later bind-toggle on a newer session may have changed -
+    // applying it to an ended session was a false alarm of this harness (depth-7 history: bound session, 2 bytes below the threshold, unbind, close,
+    // new session, bind again).
     for (size_t k = 0; k < w.ss.size() && w.viol.empty(); k++) { Sess &s = w.ss[k]; int ci = s.client;
       if (s.accepted && !s.s_user_closed && s.s_hi < s.c_sent.size() && s.c_sent.size() - s.s_cons >= cfg.thr) w.fail("bytes-sent-by-client-never-presented-to-the-server (shown " + std::to_string(s.s_hi) + " of " + std::to_string(s.c_sent.size()) + ")");
-      else if (s.c_connected && !s.c_user_closed && w.c_due(ci, s)) w.fail("bytes-sent-by-server-never-presented-to-the-client (shown " + std::to_string(s.c_hi) + " of " + std::to_string(s.s_sent.size()) + ")");
+      else if (s.c_connected && !s.c_user_closed && s.c_disc == 0 && w.c_due(ci, s)) w.fail("bytes-sent-by-server-never-presented-to-the-client (shown " + std::to_string(s.c_hi) + " of " + std::to_string(s.s_sent.size()) + ")");
       else if (s.client_closed() && s.accepted && !s.s_user_closed && s.s_disc != 1) w.fail("server-disconnected-callback-count-" + std::to_string(s.s_disc) + "-after-client-close");
       else if (s.server_closed() && s.c_connected && !s.c_user_closed && s.c_disc != 1) w.fail("client-disconnected-callback-count-" + std::to_string(s.c_disc) + "-after-server-close"); }
     // flush: every callback is replaced on the live objects (clients: threshold 0, take everything), then one more byte travels each way on every
